@@ -30,6 +30,7 @@ func genStress(rt *rapid.T, thorough bool) *StressProgram {
 		p.Contenders = append(p.Contenders, rapid.IntRange(1, 6).Draw(rt, "ctx"))
 	}
 	p.Yields = rapid.SliceOfN(rapid.IntRange(0, 5), 1, 8).Draw(rt, "yields")
+	p.EarlyClose = rapid.IntRange(0, 1).Draw(rt, "earlyClose") == 1
 	return p
 }
 
